@@ -30,8 +30,8 @@ struct H {
 	}
 	void check(bool append_op, const char *opname)
 	{
-		if (pb->bpos != (int)model.size())
-			ctx.fail("length", std::string(opname) + ": bpos=" + str(pb->bpos) + " model length=" + str(model.size()));
+		if (pb->bpos != (int)model.size() || printbuf_length(pb) != (int)model.size())
+			ctx.fail("length", std::string(opname) + ": bpos=" + str(pb->bpos) + " printbuf_length=" + str(printbuf_length(pb)) + " model length=" + str(model.size()));
 		if (pb->bpos > pb->size || pb->size <= 0)
 			ctx.fail("bounds", std::string(opname) + ": bpos=" + str(pb->bpos) + " size=" + str(pb->size));
 		if (memcmp(pb->buf, model.data(), model.size()) != 0)
@@ -77,6 +77,29 @@ struct H {
 		if (pb->size != before)
 			grew = true;
 		check(true, "memappend");
+	}
+	void strappend(int which)
+	{
+		// the string-literal macro (length from sizeof)
+		int before = pb->size, r;
+		const char *lit;
+		switch (which)
+		{
+		case 0: r = printbuf_strappend(pb, ""); lit = ""; break;
+		case 1: r = printbuf_strappend(pb, "x"); lit = "x"; break;
+		case 2: r = printbuf_strappend(pb, "null"); lit = "null"; break;
+		default:
+			r = printbuf_strappend(pb, "a string literal that is longer than the initial capacity of a print buffer");
+			lit = "a string literal that is longer than the initial capacity of a print buffer";
+			break;
+		}
+		model += lit;
+		log(std::string("strappend ") + lit);
+		if (r != (int)strlen(lit))
+			ctx.fail("retval", "printbuf_strappend returned " + str(r) + " for a literal of " + str(strlen(lit)) + " bytes");
+		if (pb->size != before)
+			grew = true;
+		check(true, "strappend");
 	}
 	void do_memset(int offset, int ch, int len)
 	{
@@ -292,6 +315,11 @@ void run_case(Choices &c, Ctx &ctx)
 			break;
 		}
 		case 1: { // memappend_fast macro
+			if (c.coin(25))
+			{
+				h.strappend((int)c.pickn(4));
+				break;
+			}
 			int n = (!big && c.coin(50)) ? near_len(c, room - 1) : (int)c.len(64);
 			h.memappend(std::string(n, (char)('a' + i % 26)), 1);
 			break;
